@@ -122,6 +122,8 @@ def check_sequence(ctx, tokens, ue):
 
     text = rp.encode(tokens)
     case = {"tokens": list(tokens), "unicode_escape": ue}
+    if any(0xD800 <= ord(ch) <= 0xDFFF for t in tokens for ch in t):
+        case = {"surrogate_tokens": True}
     ctx.evaluation()
     built = {}
     for name, fn in routes(tokens, ue).items():
@@ -378,6 +380,14 @@ def run(spec, ctx):
         return
     if spec["kind"] == "exhaustive":
         if spec["first"] is None:
+            # tokens holding surrogate code points as such (Python-built; a high and a low one side by side are two characters,
+            # not the astral character an escaped pair denotes); a replay file cannot hold them - replayed as a whole
+            HI, LO, AST = "\ud83d", "\ude00", "\U0001f600"
+            for toks in ((HI + LO,), (AST,), (HI,), (LO,), (LO + HI,), ("a", HI + LO), (HI + LO, "b"), (HI, LO), ("x" + HI + LO + "y",), (HI + LO + HI,), (AST, HI + LO), ("\u00e9" + HI + LO,)):
+                for ue in (True, False):
+                    check_sequence(ctx, toks, ue)
+                    ctx.count("token_sequences_with_surrogate_code_points")
+        if spec["first"] is None:
             seqs = [()]
         else:
             seqs = [(spec["first"],)] + [(spec["first"],) + rest for n in (1, 2) for rest in itertools.product(ALPHABET, repeat=n)]
@@ -437,5 +447,8 @@ def replay(case, ctx):
         return
     if case.get("flags"):
         run({"kind": "flags"}, ctx)
+        return
+    if case.get("surrogate_tokens"):
+        run({"kind": "exhaustive", "first": None}, ctx)
         return
     check_sequence(ctx, tuple(case["tokens"]), case["unicode_escape"])
